@@ -72,9 +72,10 @@ func TestVerif_C08_Close(t *testing.T) {
 		stunMode := rapid.SampledFrom([]string{"now", "later", "never"}).Draw(rt, "stunMode")
 		turnMode := rapid.SampledFrom([]string{"ok", "allocate-blocks"}).Draw(rt, "turnMode")
 		closeErr := rapid.IntRange(0, 4).Draw(rt, "socketCloseError") == 0
+		closeStuck := rapid.IntRange(0, 4).Draw(rt, "socketCloseFailsAndReadStaysBlocked") == 0
 		slowHandler := rapid.IntRange(0, 3).Draw(rt, "slowCandidateHandler") == 0
-		desc := fmt.Sprintf("controlling=%v ops=%v closeAt=%d flavour=%s fromHandler=%v(%s) closers=%d stun=%s turn=%s closeErr=%v slowHandler=%v",
-			controlling, ops, closeAt, flavour, fromHandler, handlerState, closers, stunMode, turnMode, closeErr, slowHandler)
+		desc := fmt.Sprintf("controlling=%v ops=%v closeAt=%d flavour=%s fromHandler=%v(%s) closers=%d stun=%s turn=%s closeErr=%v closeStuck=%v slowHandler=%v",
+			controlling, ops, closeAt, flavour, fromHandler, handlerState, closers, stunMode, turnMode, closeErr, closeStuck, slowHandler)
 
 		before, _ := c08Census()
 		fn := newFakeNet([]fnIface{{Name: "eth0", Up: true, Addrs: []string{"10.0.0.1"}}})
@@ -100,6 +101,7 @@ func TestVerif_C08_Close(t *testing.T) {
 		a := s.ag.a
 		a.turnClientFactory = fn.turnFactory
 		s.ag.socks[0].closeErr = closeErr
+		s.ag.socks[0].closeStuck = closeStuck
 		conn := &Conn{agent: a}
 		var (
 			closeReturned     atomic.Bool
@@ -427,8 +429,11 @@ func TestVerif_C08_Close(t *testing.T) {
 		if open, _, _ := fn.tally(); len(open) != 0 {
 			st.Fail(rt, "C08/final/socket-left-open", "sockets still open after Close: %v\n%s", open, desc)
 		}
-		if !s.ag.socks[0].isClosed() {
+		if !s.ag.socks[0].isClosed() && !closeStuck {
 			st.Fail(rt, "C08/final/socket-left-open", "candidate socket still open after Close\n%s", desc)
+		}
+		if closeStuck {
+			lbl["socket-close-fails-read-stays-blocked"] = true
 		}
 		var labels []string
 		for l := range lbl {
